@@ -23,7 +23,7 @@ run_demo() { # $1 = seeded dir ; returns demo exit status
     cp -r "$sub" "$WT/"; bash "$(basename "$sub")/run.sh" >/tmp/sv-demo.log 2>&1; return $?
   else
     s=$(ls "$d"/*.sh | head -1)
-    sh "$s" "$WT" >/tmp/sv-demo.log 2>&1 || bash "$s" "$WT" >/tmp/sv-demo.log 2>&1; return $?
+    if head -1 "$s" | grep -q bash; then bash "$s" "$WT" >/tmp/sv-demo.log 2>&1; else sh "$s" "$WT" >/tmp/sv-demo.log 2>&1; fi; return $?
   fi
 }
 cd "$V"
